@@ -417,4 +417,19 @@ def codec_decls():
          "    #[difference(collection_strategy = \"unordered_array_like\")]\n    pub a: Vec<T>,\n    #[difference(collection_strategy = \"unordered_map_like\", map_equality = \"key_and_value\")]\n    pub b: std::collections::HashMap<T, i64>,\n    #[difference(recurse)]\n    pub c: Option<K1N>,\n    pub d: (T, u8),\n",
          "impl<T: Mk + Clone + PartialEq + std::fmt::Debug + std::hash::Hash + Eq + 'static> Mk for K1<T> { fn mk(s: u64) -> Self { K1 { a: Mk::mk(s), b: Mk::mk(s + 1), c: Mk::mk(s + 2), d: Mk::mk(s + 3) } } }\n",
          "        if sorted_dbg(&r.a) != sorted_dbg(&b.a) || r.b != b.b || r.d != b.d { return Err(format!(\"round trip: {:?} != {:?}\", r, b)); }\n        match (&r.c, &b.c) { (None, None) => (), (Some(x), Some(y)) if x.x == y.x && x.y == y.y => (), _ => return Err(format!(\"recurse option: {:?} != {:?}\", r.c, b.c)) }\n")
+    decl('K2', "pub struct K2<T: Clone + PartialEq + std::fmt::Debug + std::hash::Hash + Eq + 'static, const N: usize>", "K2<String, 2>",
+         "    #[difference(recurse, collection_strategy = \"unordered_map_like\", map_equality = \"key_and_value\")]\n    pub a: std::collections::HashMap<T, K2N>,\n    #[difference(recurse, collection_strategy = \"unordered_map_like\", map_equality = \"key_only\")]\n    pub b: std::collections::HashMap<T, K2N>,\n    pub c: Option<(T, i64)>,\n    #[difference(skip)]\n    pub d: [u8; N],\n",
+         "impl<T: Mk + Clone + PartialEq + std::fmt::Debug + std::hash::Hash + Eq + 'static, const N: usize> Mk for K2<T, N> { fn mk(s: u64) -> Self { K2 { a: Mk::mk(s), b: Mk::mk(s + 1), c: Mk::mk(s + 2), d: Mk::mk(s + 3) } } }\n",
+         "        if r.c != b.c || r.d != a.d { return Err(format!(\"round trip: {:?} != {:?}\", r, b)); }\n        let ka: std::collections::BTreeSet<_> = r.a.keys().collect(); let kb: std::collections::BTreeSet<_> = b.a.keys().collect(); if ka != kb { return Err(format!(\"keys of a: {:?} != {:?}\", ka, kb)); }\n        for (k, v) in &r.a { let w = &b.a[k]; if v.x != w.x || v.y != w.y { return Err(format!(\"value of a[{:?}]\", k)); } }\n        let ka: std::collections::BTreeSet<_> = r.b.keys().collect(); let kb: std::collections::BTreeSet<_> = b.b.keys().collect(); if ka != kb { return Err(format!(\"keys of b: {:?} != {:?}\", ka, kb)); }\n")
+    # a generic enum: its diff carries the whole new value, so the enum itself derives the codecs
+    e = ("#[cfg(feature = \"ns\")] #[allow(unused_imports)] use nanoserde::{SerBin, DeBin};\n#[derive(Debug, Clone, PartialEq, Difference)]\n#[cfg_attr(feature = \"ns\", derive(nanoserde::SerBin, nanoserde::DeBin))]\n#[cfg_attr(feature = \"sd\", derive(serde::Serialize, serde::Deserialize))]\n"
+         "pub enum K3<T: Clone + PartialEq + std::fmt::Debug> { A, B(T), C { x: T, y: i64 }, D(i64, bool) }\n"
+         "impl<T: Mk + Clone + PartialEq + std::fmt::Debug> Mk for K3<T> { fn mk(s: u64) -> Self { match s % 4 { 0 => K3::A, 1 => K3::B(Mk::mk(s)), 2 => K3::C { x: Mk::mk(s), y: Mk::mk(s + 1) }, _ => K3::D(Mk::mk(s), Mk::mk(s + 1)) } } }\n"
+         "pub fn test() -> Result<(), String> {\n    for seed in 0..12u64 {\n        let a: K3<String> = Mk::mk(seed);\n        let b: K3<String> = Mk::mk(seed / 2 + 1);\n        let d = a.diff(&b);\n"
+         "        if (a == b) != d.is_empty() { return Err(format!(\"enum diff empty={} but equal={}\", d.is_empty(), a == b)); }\n        if a.clone().apply(d) != b { return Err(format!(\"enum round trip\")); }\n"
+         "        let dr: Vec<_> = a.diff_ref(&b).into_iter().map(Into::into).collect();\n        if a.clone().apply(dr) != b { return Err(format!(\"enum diff_ref round trip\")); }\n"
+         "        #[cfg(feature = \"ns\")] {\n            let bytes = nanoserde::SerBin::serialize_bin(&a.diff_ref(&b));\n            let back: Vec<<K3<String> as StructDiff>::Diff> = nanoserde::DeBin::deserialize_bin(&bytes).map_err(|e| format!(\"nanoserde borrowed: {:?}\", e))?;\n            if a.clone().apply(back) != b { return Err(format!(\"enum via nanoserde (borrowed)\")); }\n        }\n"
+         "        #[cfg(feature = \"sd\")] {\n            let bytes = bincode::serialize(&a.diff_ref(&b)).map_err(|e| format!(\"bincode: {:?}\", e))?;\n            let back: Vec<<K3<String> as StructDiff>::Diff> = bincode::deserialize(&bytes).map_err(|e| format!(\"bincode borrowed: {:?}\", e))?;\n            if a.clone().apply(back) != b { return Err(format!(\"enum via bincode (borrowed)\")); }\n        }\n"
+         "    }\n    Ok(())\n}\n")
+    out.append(('K3', e, ['codec_generic_enum']))
     return out
